@@ -2,8 +2,8 @@ SPECIFICATION Spec
 CONSTANTS NR = 6
           NC = 7
           W = 2
-          NMat = 400
-          NY = 300
+          NMat = 200
+          NY = 150
           Variant = "code"
 INVARIANTS TypeOK WOrthogonal VOrthogonal SelectionOK SkipSound ThreeTermWhenClassical YOrthogonal RankBound TerminationTest ResultOK
 CHECK_DEADLOCK TRUE
